@@ -195,17 +195,34 @@ func init() {
 				_, _ = capOut.Write(so)
 				_, _ = capErr.Write(se)
 			}()
-			obj := spg.NewCharRecipe(r.Length)
-			obj.Allow, obj.Require, obj.Exclude, obj.AllowChars, obj.ExcludeChars = r.Allow, r.Require, r.Exclude, r.AllowChars, r.ExcludeChars
-			obj.RequireSets = make([]string, len(r.RequireSets))
-			for i := range obj.RequireSets {
-				obj.RequireSets[i] = "~"
-			}
-			_ = obj.Entropy()
-			_ = obj.SuccessProbability()
-			copy(obj.RequireSets, r.RequireSets)
-			if math.Float32bits(obj.Entropy()) != math.Float32bits(e1) || math.Float32bits(obj.SuccessProbability()) != math.Float32bits(sp) || obj.Alphabet() != a {
-				same = 0
+			// one object per method (a call of one method may well go through another internally)
+			for which := 0; which < 3; which++ {
+				obj := spg.NewCharRecipe(r.Length)
+				obj.Allow, obj.Require, obj.Exclude, obj.AllowChars, obj.ExcludeChars = r.Allow, r.Require, r.Exclude, r.AllowChars, r.ExcludeChars
+				obj.RequireSets = make([]string, len(r.RequireSets))
+				for i := range obj.RequireSets {
+					obj.RequireSets[i] = "~"
+				}
+				switch which {
+				case 0:
+					_ = obj.Entropy()
+					copy(obj.RequireSets, r.RequireSets)
+					if math.Float32bits(obj.Entropy()) != math.Float32bits(e1) {
+						same = 0
+					}
+				case 1:
+					_ = obj.SuccessProbability()
+					copy(obj.RequireSets, r.RequireSets)
+					if math.Float32bits(obj.SuccessProbability()) != math.Float32bits(sp) {
+						same = 0
+					}
+				case 2:
+					_ = obj.Alphabet()
+					copy(obj.RequireSets, r.RequireSets)
+					if obj.Alphabet() != a {
+						same = 0
+					}
+				}
 			}
 		}
 		return fmt.Sprintf("alphabet=%s count=%s ent=%s sp=%s stable=%d", hxs(a), c.Text(16), f32(e1), f32(sp), same)
